@@ -1117,8 +1117,8 @@ class TT():
                     cores.append(self.cores[i])
 
             S = TT(cores)
-            S.reduce_dims()
-            if len(S.cores) == 1 and tn.numel(S.cores[0]) == 1:
+            S.reduce_dims([i for i in range(len(self.__N)) if i not in index])
+            if len(set(index)) == len(self.__N):
                 S = tn.squeeze(S.cores[0])
         return S
 
@@ -1264,6 +1264,7 @@ class TT():
                     idx2 = index[i+len(index)//2]
                     if isinstance(idx1, slice) and isinstance(idx2, slice):
                         cores_new.append(self.cores[k][:, idx1, idx2, :])
+                        exclude.append(i)
                         k += 1
                     elif idx1 == None and idx2 == None:
                         # extend the tensor
@@ -1297,6 +1298,7 @@ class TT():
                 for i, idx in enumerate(index):
                     if isinstance(idx, slice):
                         cores_new.append(self.cores[k][:, idx, :])
+                        exclude.append(i)
                         k += 1
                     elif idx is None:
                         # extend the tensor
@@ -1316,7 +1318,7 @@ class TT():
 
             sliced = TT(cores_new)
             sliced.reduce_dims(exclude)
-            if (sliced.is_ttm == False and sliced.N == [1]) or (sliced.is_ttm and sliced.N == [1] and sliced.M == [1]):
+            if len(exclude) == 0 and ((sliced.is_ttm == False and sliced.N == [1]) or (sliced.is_ttm and sliced.N == [1] and sliced.M == [1])):
                 sliced = tn.squeeze(sliced.cores[0])
 
             # cores = None
